@@ -15,6 +15,7 @@ type Expr struct {
 	Args  []*Expr
 	Vars  []QVar
 	Pats  []*Expr
+	AltPats [][]*Expr
 	Label string // old@label
 }
 
@@ -202,11 +203,14 @@ func (p *exprParser) parseQuant() *Expr {
 		break
 	}
 	p.expectOp("::")
+	// triggers: {a, b} is one multi-pattern; {a} {b} are alternative patterns
 	var pats []*Expr
-	if p.isOp("{") {
+	var groups [][]*Expr
+	for p.isOp("{") {
 		p.pos++
+		var g []*Expr
 		for {
-			pats = append(pats, p.parseIff())
+			g = append(g, p.parseIff())
 			if p.isOp(",") {
 				p.pos++
 				continue
@@ -214,9 +218,17 @@ func (p *exprParser) parseQuant() *Expr {
 			break
 		}
 		p.expectOp("}")
+		groups = append(groups, g)
+	}
+	if len(groups) > 0 {
+		pats = groups[0]
 	}
 	body := p.parseIff()
-	return &Expr{Kind: kind, Vars: vars, Args: []*Expr{body}, Pats: pats}
+	e := &Expr{Kind: kind, Vars: vars, Args: []*Expr{body}, Pats: pats}
+	if len(groups) > 1 {
+		e.AltPats = groups[1:]
+	}
+	return e
 }
 
 func (p *exprParser) parseIff() *Expr {
